@@ -254,6 +254,51 @@ def guardViolated (g : GuardKind) (L : Nat) : Bool :=
 
 def pooled (n : Nat) : Nat := if n = 16384 then 0 else n
 
+/-- the extended-message part of `body` (id 20, after the id-level guard): sub-id byte,
+    per-sub-id guard from the table, payload -/
+def bodyExt (tbl : List GuardRow) (bd : BDec) (L : Nat) (rest : Bytes) : Out :=
+  match rest with
+  | [] => ⟨.err .eof, 5, 0⟩
+  | sb :: rest2 =>
+    let sub := sb.toNat
+    let n := L - 2
+    match findGuard tbl 20 (some sub) with
+    | none =>
+      if rest2.length < n then ⟨.err .eof, 6 + rest2.length, 0⟩
+      else ⟨.msg (.extUnknown sub), 4 + L, 0⟩
+    | some srow =>
+      if guardViolated srow.guard L then ⟨failRes srow.fail, 6, 0⟩
+      else if sub = 0 then
+        if rest2.length < n then ⟨.err .eof, 6 + rest2.length, n⟩
+        else match bd.ext0 (rest2.take n) with
+          | none => ⟨.err .ext, 4 + L, n⟩
+          | some e => ⟨.msg (.ext0 e), 4 + L, 2 * n⟩
+      else if sub = 1 then
+        if rest2.length < n then ⟨.err .eof, 6 + rest2.length, n⟩
+        else match bd.pex (rest2.take n) with
+          | none => ⟨.err .ext, 4 + L, n⟩
+          | some (a, d) => ⟨.msg (.pex 1 a d), 4 + L, 8 * n⟩
+      else if sub = 2 then
+        if rest2.length < n then ⟨.err .eof, 6 + rest2.length, n⟩
+        else match bd.mdata (rest2.take n) with
+          | none => ⟨.err .ext, 4 + L, n⟩
+          | some none => ⟨.err .parse, 4 + L, n⟩
+          | some (some (tp, pc, tot, parsed)) =>
+            ⟨.msg (.metadata 2 tp pc tot ((rest2.take n).drop parsed)), 4 + L, 2 * n⟩
+      else if sub = 3 then
+        if rest2.length < 4 then ⟨.err .eof, 6 + rest2.length, 0⟩
+        else ⟨.msg (.dontHave 3 (rdBE (rest2.take 4))), 10, 0⟩
+      else if sub = 4 then
+        match rest2 with
+        | [] => ⟨.err .parse, 6, 0⟩
+        | v :: _ =>
+          if v = 0 then ⟨.msg (.uploadOnly 4 false), 7, 0⟩
+          else if v = 1 then ⟨.msg (.uploadOnly 4 true), 7, 0⟩
+          else ⟨.err .parse, 7, 0⟩
+      else
+        -- a sub-id with a table row but no transcription here
+        ⟨.panic, 6, 0⟩
+
 /-- body of one frame once `L` (1 ≤ L ≤ cap) and the id byte `t` have been read; `rest` is
     the stream after the id byte; `c0 = 5` bytes are already consumed -/
 def body (tbl : List GuardRow) (bd : BDec) (L t : Nat) (rest : Bytes) : Out :=
@@ -289,48 +334,7 @@ def body (tbl : List GuardRow) (bd : BDec) (L t : Nat) (rest : Bytes) : Out :=
     else if t = 17 then need 4 fun p => ⟨.msg (.allowedFast (rdBE p)), 9, 0⟩
     else if t = 14 then ⟨.msg .haveAll, 5, 0⟩
     else if t = 15 then ⟨.msg .haveNone, 5, 0⟩
-    else if t = 20 then
-      match rest with
-      | [] => ⟨.err .eof, 5, 0⟩
-      | sb :: rest2 =>
-        let sub := sb.toNat
-        let n := L - 2
-        match findGuard tbl 20 (some sub) with
-        | none =>
-          if rest2.length < n then ⟨.err .eof, 6 + rest2.length, 0⟩
-          else ⟨.msg (.extUnknown sub), 4 + L, 0⟩
-        | some srow =>
-          if guardViolated srow.guard L then ⟨failRes srow.fail, 6, 0⟩
-          else if sub = 0 then
-            if rest2.length < n then ⟨.err .eof, 6 + rest2.length, n⟩
-            else match bd.ext0 (rest2.take n) with
-              | none => ⟨.err .ext, 4 + L, n⟩
-              | some e => ⟨.msg (.ext0 e), 4 + L, 2 * n⟩
-          else if sub = 1 then
-            if rest2.length < n then ⟨.err .eof, 6 + rest2.length, n⟩
-            else match bd.pex (rest2.take n) with
-              | none => ⟨.err .ext, 4 + L, n⟩
-              | some (a, d) => ⟨.msg (.pex 1 a d), 4 + L, 8 * n⟩
-          else if sub = 2 then
-            if rest2.length < n then ⟨.err .eof, 6 + rest2.length, n⟩
-            else match bd.mdata (rest2.take n) with
-              | none => ⟨.err .ext, 4 + L, n⟩
-              | some none => ⟨.err .parse, 4 + L, n⟩
-              | some (some (tp, pc, tot, parsed)) =>
-                ⟨.msg (.metadata 2 tp pc tot ((rest2.take n).drop parsed)), 4 + L, 2 * n⟩
-          else if sub = 3 then
-            if rest2.length < 4 then ⟨.err .eof, 6 + rest2.length, 0⟩
-            else ⟨.msg (.dontHave 3 (rdBE (rest2.take 4))), 10, 0⟩
-          else if sub = 4 then
-            match rest2 with
-            | [] => ⟨.err .parse, 6, 0⟩
-            | v :: _ =>
-              if v = 0 then ⟨.msg (.uploadOnly 4 false), 7, 0⟩
-              else if v = 1 then ⟨.msg (.uploadOnly 4 true), 7, 0⟩
-              else ⟨.err .parse, 7, 0⟩
-          else
-            -- a sub-id with a table row but no transcription here
-            ⟨.panic, 6, 0⟩
+    else if t = 20 then bodyExt tbl bd L rest
     else
       -- an id with a table row but no transcription here
       ⟨.panic, 5, 0⟩
